@@ -123,11 +123,17 @@ def check_outputs(ctx, report, case, impl, label, clause_prefix=None, report_cas
         elif k == "half_integer_tie":
             report.hit("kept_iff_consistent:tie", v)
     report.hit("disp_unchanged")
-    for f in spec["failures"]:
-        r, c = f["row"], f["col"]
-        names = [cl if clause_prefix is None else clause_prefix for cl in f["clauses"]]
-        if all(sum(1 for g in report.failures if g["clause"] == nm and g["trigger"] == f["trigger"]) >= 3 for nm in names):
-            continue  # this kind is already documented three times
+    # the half-even reading of `round` (clausesPixEven): evaluated on every pixel next to the loose clauses
+    report.hit("half_even:every_pixel")
+    if spec.get("tie_pixels"):
+        report.hit("half_even:tie_pixels", spec["tie_pixels"])
+        report.count("tie_pixels", spec["tie_pixels"])
+
+    def documented(names, trigger):
+        return all(sum(1 for g in report.failures if g["clause"] == nm and g["trigger"] == trigger) >= 3 for nm in names)
+
+    def shrink(r, c, clauses, field):
+        """the case to record for pixel (r, c): its row alone when the same clauses still fail there"""
         rep_case = dict(case, focus=[r, c]) if report_case is None else dict(report_case, focus=[r, c])
         rep_impl = {"mask": impl["mask"][r][c], "conf": impl["conf"][r][c], "disp": impl["disp"][r][c]}
         if report_case is None and int(case["offset"]) == 0 and len(case["disp_a"]) > 1:
@@ -136,15 +142,43 @@ def check_outputs(ctx, report, case, impl, label, clause_prefix=None, report_cas
             if alone["res"] == "ok":
                 sp = ctx.lean.call("C07.spec", **model_payload(small), out_mask=alone["mask"], out_conf=alone["conf"],
                                    out_disp=alone["disp"])
-                hit = [g for g in sp["failures"] if g["col"] == c and set(g["clauses"]) & set(f["clauses"])]
+                hit = [g for g in sp.get(field, []) if g["col"] == c and set(g["clauses"]) & set(clauses)]
                 if hit:
                     rep_case = dict(small, focus=[0, c])
                     rep_impl = {"mask": alone["mask"][0][c], "conf": alone["conf"][0][c], "disp": alone["disp"][0][c]}
+        return rep_case, rep_impl
+
+    loose = {}
+    for f in spec["failures"]:
+        r, c = f["row"], f["col"]
+        loose[(r, c)] = set(f["clauses"])
+        names = [cl if clause_prefix is None else clause_prefix for cl in f["clauses"]]
+        if documented(names, f["trigger"]):
+            continue  # this kind is already documented three times
+        rep_case, rep_impl = shrink(r, c, f["clauses"], "failures")
         for cl in f["clauses"]:
             name = cl if clause_prefix is None else clause_prefix
             add_failure(report, name, f["trigger"], rep_case, rep_impl,
                         f"pixel ({r},{c}) clause {cl} [{label}]")
-    return len(spec["failures"])
+    n_even = 0
+    for f in spec.get("failing_even", []):
+        r, c = f["row"], f["col"]
+        # a half-even clause is reported when the loose clause of the same name does not already fail at that pixel
+        # (it is then reported above, once).  Away from a tie the two readings are the same clauses
+        # (Pandora.C07.clausesPixEven_eq_of_no_tie) and nothing is left; on a tie pixel what is left is what only the
+        # half-even reading rejects: trigger half_integer_tie, or the structural situation of the pixel
+        clauses = [cl for cl in f["clauses"] if cl not in loose.get((r, c), ())]
+        if not clauses:
+            continue
+        n_even += 1
+        names = [(cl if clause_prefix is None else clause_prefix) + ":half_even" for cl in clauses]
+        if documented(names, f["trigger"]):
+            continue
+        rep_case, rep_impl = shrink(r, c, clauses, "failing_even")
+        for cl, name in zip(clauses, names):
+            add_failure(report, name, f["trigger"], rep_case, rep_impl,
+                        f"pixel ({r},{c}) clause {cl} with round = round half to even [{label}]")
+    return len(spec["failures"]) + n_even
 
 
 def check_case(ctx, report, case, label, captured=None):
